@@ -250,3 +250,11 @@ func forall(lo, hi int, f func(int) bool) bool {
 //@   property C06 C15
 //@   nosafety
 //@   atcall Deploy: same(arg1.Checkpoints, sliceu.Pick(ckpt.GetOperatorCheckpoints(), opCkptAssignments[i])) && same(arg1.Operators, opIdentities) && same(arg1.SourceRunnerIds, srIDs)
+
+// A savepoint request that was folded into a checkpoint already in flight does NOT start that
+// checkpoint a second time (the source runners would inject a second barrier with the same id).
+//@ func Job.HandleCreateSavepoint
+//@   property C14 C12
+//@   nosafety
+//@   atcall StartCheckpoint: created && err == nil && arg1 == checkpointID
+//@   checks result1 == nil ==> result0 == checkpointID
